@@ -76,7 +76,8 @@ def contents(run, tier):
                 raise common.HarnessError(r['harness_error'])
             n += 1; nx += r['nx']
             if r['status'] != 'ok':
-                run.note('daemon died in a contents trace (%s): reported by C08, not by C06' % r['status'])
+                run.violation('C06.died-on-contents', '[contents/%s] the daemon died (%s) while handling a client whose fields are %r: %s' % (r['order'], r['status'], r['variant'], (r['err'].strip().splitlines() or ['?'])[0][:160]),
+                              {'engine': 'E1-trace', 'conf': conf, 'variant': r['variant'], 'order': r['order'], 'symbolic': r['syms'], 'outputs': r['outs']}, dedup='contents-died|%s' % r['order'])
             for t, x, idx in r['V']:
                 run.violation(t, '[contents/%s] %s' % (r['order'], x),
                               {'engine': 'E1-trace', 'conf': conf, 'variant': r['variant'], 'order': r['order'], 'symbolic': r['syms'], 'outputs': r['outs']},
